@@ -7,7 +7,7 @@ checkpoint positions of random histories with a shared continuation."""
 from __future__ import annotations
 import copy, pickle, time
 import torch
-from ..common import Rng, Report, budget
+from ..common import Rng, Report, budget, ckey
 from ..registry import SPECS, Spec, fresh_cfg, public_cfg, new_metric
 from ..engine import observe, same_obs, obs_json, snapshot, snap_equal
 from ..hist import random_ops, apply_op, describe_ops, same_step
@@ -62,7 +62,7 @@ def one(rep: Report, rng: Rng, spec: Spec, cfg0: dict, all_prefixes: bool):
         how = rng.choice(HOW) if not all_prefixes else HOW[p % 4]
         orig, nupd = replay_prefix(spec, cfg, ops[:p])
         rep.count(f"how:{how}"); rep.count(f"class:{spec.name}")
-        rep.case(nontrivial_key=(spec.name, repr(public_cfg(cfg)), how, p, rep.evaluations) if nupd else None,
+        rep.case(nontrivial_key=(spec.name, repr(public_cfg(cfg)), how, ckey(ops[:p]), ckey(cont)) if nupd else None,
                  sample={"class": spec.name, "cfg": public_cfg(cfg), "checkpoint_after": p, "how": how, "continuation": len(cont)} if rep.evaluations % 503 == 0 else None)
         ctx = {"class": spec.name, "cfg": public_cfg(cfg), "how": how, "history": describe_ops(ops[:p])}
         # state_dict() must not alias live state
